@@ -231,6 +231,7 @@ OPTS = {}
 _PROBED = set()
 _NATIVE = None
 _RNG = None
+_FAST = None
 
 
 def make_root(spec, enabled):
@@ -378,6 +379,16 @@ def _w_expand2(blob):
         dg = sig_digest(sig)
         if OPTS.get('ra', True) and dg not in _PROBED:
             _PROBED.add(dg)
+            if OPTS.get('z3_new_states', True):
+                # the path condition of every path that reaches a configuration this worker has not seen is re-decided by z3
+                global _FAST
+                if _FAST is None:
+                    from .keytheory import FastChecker
+                    _FAST = FastChecker(DOMAIN)
+                sat = _FAST.sat(ch.kt.trace)
+                stats['z3_path_checks'] += 1
+                if not sat:
+                    raise Unsupported('the native key theory accepted a path that z3 finds infeasible: %r' % (ch.hist,))
             v2, posts = ra_probe(ch, spec, layout_v)
             stats['ra_probes'] += 1
             viols.extend(v2)
@@ -502,6 +513,7 @@ class Result:
         self.samples = []
         self.secs = 0.0
         self.ra_probes = 0
+        self.z3_path_checks = 0
         self.key_forks = 0
         self.levels = []
         self.cut = None
@@ -528,6 +540,7 @@ def explore_spec(pool, spec, root_id, root_node, deadline=None, max_viols=40, lo
             res.paths += stats['paths']
             res.mir_steps += stats['mir_steps']
             res.ra_probes += stats['ra_probes']
+            res.z3_path_checks += stats.get('z3_path_checks', 0)
             res.key_forks += stats['key_forks']
             res.transitions += len(out)
             for dg, blob in out:
